@@ -364,3 +364,27 @@ CONTRACTS = CONTRACTS + [dict(
                                          "len(available_latter_vertices) == _i)",
                "members-of-S-kept": "scount(S, latter_vertices, _i) <= scount(S, available_latter_vertices, len(available_latter_vertices))"})},
 )]
+
+
+# ------------------------------------------------------------------------------------------------------------------ C13 / C14: latter_map_to_accessor on ANY latter map
+CONTRACTS = CONTRACTS + [dict(
+    name="dsw.graphized.latter_map_to_accessor#any-order", function="dsw.graphized.latter_map_to_accessor", variant_of="dsw.graphized.latter_map_to_accessor",
+    n_loops=2,
+    # a caller-built latter map: keys in any insertion order, every list holds shift successors of its key in ANY order (repetitions allowed)
+    ghost_params={"pos0": "arr"},
+    params={"latter_map": "dict", "observed_length": "nat", "threshold": "none", "verbose": "false"},
+    requires={"order": "observed_length >= 1", "every-key-is-listed-once": "lm_indexed(latter_map, pos0)",
+              "lists-hold-shift-successors": "lm_shift(latter_map, observed_length)"},
+    returns="mat(ipow(4, observed_length), 4)",
+    ensures={"shape": "len(result) == ipow(4, observed_length) and len(result[0]) == 4",
+             "column-is-the-last-nucleotide": "lm_written(result, latter_map, observed_length)"},
+    raises={},
+    ghost={"entry": "ipow_mono(4, 0, observed_length)",
+           "loop1_begin": "assert haskey(latter_map, former_vertex) and pos0[former_vertex] == _i, 'listed-key'\n"
+                          "if len(latter_vertices) == 0:\n    pass\nelif len(latter_vertices) == 1:\n    pass\nelif len(latter_vertices) == 2:\n    pass\n"
+                          "elif len(latter_vertices) == 3:\n    pass\nelse:\n    pass\n"},
+    loops={1: dict(binds="enumerate(latter_map.items())", invariant={
+        "rows-so-far": "lm_written(accessor, latter_map, observed_length, pos0, _i)"})},
+    concrete_inputs="[dict(latter_map=m_, observed_length=k_, threshold=None, verbose=False, pos0={a_: i_ for i_, a_ in enumerate(m_)}) "
+                    "for k_ in (1, 2) for m_ in scrambled_latter_maps(k_)]",
+)]
